@@ -29,7 +29,7 @@ ASSUMPTIONS = ["element names are unique (members given by reference column 'nam
 REACH_PROBES = ["group_with_reference_column", "attach_with_mismatching_reference_column", "group_emptied",
                 "element_drop_with_members", "reindex_with_members", "res_sum_checked", "setter_checked",
                 "groups_created_from_shared_argument_lists", "attach_to_several_groups",
-                "membership_queries_checked"]
+                "membership_queries_checked", "reindex_with_overlapping_lookup"]
 
 TEMPLATES = [("feeder", 4), ("case9", 3), ("feeder_t3w", 2), ("four_bus", 1)]
 MEMBER_ET = ["load", "sgen", "line", "bus", "gen", "trafo", "switch"]
@@ -77,6 +77,7 @@ def generate(rng, idx, tier):
             op["et"] = rng.choice(MEMBER_ET)
             op["shift"] = rng.choice([1, 10])
             op["partial"] = rng.random() < 0.4
+            op["mode"] = rng.choice(["above", "above", "shift_all", "swap", "rotate"])
         elif f == "in_service":
             op["to"] = rng.random() < 0.5
         elif f == "set_value":
@@ -390,6 +391,10 @@ def apply_op(net, model, op, ctx, fam, bad):
         sel = idx[::2] if op["partial"] else idx
         top = max(idx) + op["shift"]
         lookup = {old: top + j + 1 for j, old in enumerate(sel)}
+        mode = op.get("mode", "above")
+        lookup = ops.overlapping_lookup(idx, mode, op["a"], op["b"]) or lookup
+        if mode != "above":
+            ctx.probe("reindex_with_overlapping_lookup")
         if any(g.get(et) for g in model.g.values()):
             ctx.probe("reindex_with_members")
         tb.reindex_elements(net, et, lookup=lookup)
